@@ -485,8 +485,8 @@ func (x *Exec) modifiesKeys(m string) []string {
 	case m == "*":
 		return nil
 	case strings.HasPrefix(m, "ghostset."):
-		hk, ck := x.gsKeys(strings.TrimPrefix(m, "ghostset."))
-		return []string{hk, ck}
+		hk, ck, tk := x.gsKeys3(strings.TrimPrefix(m, "ghostset."))
+		return []string{hk, ck, tk}
 	case strings.HasPrefix(m, "ghostlog."):
 		nk, ek := x.logKeys(strings.TrimPrefix(m, "ghostlog."))
 		return []string{nk, ek}
